@@ -41,6 +41,14 @@ impl CountMinSketch {
     }
 }
 
+#[cfg(feature = "verif")]
+impl CountMinSketch {
+    /// verification hook: (seed, rows k, columns m), enough to recompute every bucket index
+    pub fn verif_params(&self) -> (u64, usize, usize) {
+        (self.seed, self.k, self.m)
+    }
+}
+
 impl CountMinSketch {
     fn hash_pair<K: Eq + AsBytes>(&self, key: &K) -> (u64, u64) {
         let hash = xxh3_128_with_seed(key.as_bytes(), self.seed);
